@@ -372,6 +372,11 @@ dyn_sink!(sinks::statistics::Statistics<Q>);
 dyn_sink!(sinks::min::Min<f64>, f64);
 dyn_sink!(sinks::max::Max<f64>, f64);
 dyn_sink!(sinks::bounds::Bounds<f64>, f64);
+// the arithmetic sinks in a machine integer's own arithmetic
+dyn_sink!(sinks::mean::Mean<i64>, i64);
+dyn_sink!(sinks::mean_variance::MeanVariance<i64>, i64);
+dyn_sink!(sinks::statistics::Statistics<i64>, i64);
+dyn_sink!(sinks::integrate::Integrate<i64>, i64);
 // ... and at the smallest machine integers
 dyn_sink!(sinks::min::Min<u8>, u8);
 dyn_sink!(sinks::max::Max<u8>, u8);
@@ -424,6 +429,10 @@ pub fn build_sink(kind: &str) -> Option<Box<dyn DynSink>> {
         "sink_min_f64" => Box::new(sinks::min::Min::<f64>::default()),
         "sink_max_f64" => Box::new(sinks::max::Max::<f64>::default()),
         "sink_bounds_f64" => Box::new(sinks::bounds::Bounds::<f64>::default()),
+        "sink_mean_i64" => Box::new(sinks::mean::Mean::<i64>::default()),
+        "sink_meanvar_i64" => Box::new(sinks::mean_variance::MeanVariance::<i64>::default()),
+        "sink_stats_i64" => Box::new(sinks::statistics::Statistics::<i64>::default()),
+        "sink_integrate_i64" => Box::new(sinks::integrate::Integrate::<i64>::default()),
         "sink_min_u8" => Box::new(sinks::min::Min::<u8>::default()),
         "sink_max_u8" => Box::new(sinks::max::Max::<u8>::default()),
         "sink_bounds_u8" => Box::new(sinks::bounds::Bounds::<u8>::default()),
@@ -941,7 +950,7 @@ impl Other {
                 }),
             },
             // an observation for the model driver only: it compares the answers the two sources gave last
-            "ssame" | "ksame" => Some("ok".into()),
+            "ssame" | "ksame" | "plong" => Some("ok".into()),
             "pull" => {
                 let s = self.srcs.get_mut(&id(toks[1])).expect("harness: unknown source id");
                 Some(match s {
